@@ -443,6 +443,7 @@ func TestVerifC03Sign(t *testing.T) {
 				seq++
 				return vSignedMsg(k, "t", vSeqno(seq), []byte(fmt.Sprintf("payload-%d-%s", seq, strings.Repeat("p", c.Intn(3)*60))))
 			}
+			sentBytes := map[string]bool{}
 			nVariants := c.Range(25, 50)
 			for v := 0; v < nVariants && !c.Violated(); v++ {
 				k := keys[c.Intn(2)]
@@ -458,6 +459,13 @@ func TestVerifC03Sign(t *testing.T) {
 				}
 				// what goes on the wire is what the node decodes: judge the decoded form
 				wire := c03Clone(m)
+				// a bit flipped in the payload's digits can reproduce the bytes of another variant of this case: the node
+				// would (rightly) treat that one as a duplicate
+				if sentBytes[string(vMsgBytes(wire))] {
+					classes["same_bytes_as_earlier_variant"]++
+					continue
+				}
+				sentBytes[string(vMsgBytes(wire))] = true
 				verdict, class := c03Verdict(mustSign, mustVerify, anonymous, wire, self)
 				saturated := busy && c.Chance(0.6)
 				if saturated {
@@ -517,7 +525,8 @@ func TestVerifC03Sign(t *testing.T) {
 						reasons = append(reasons, e.Reason)
 					}
 				}
-				detail := fmt.Sprintf("%s: tamper=%v author_key=%s class=%s: delivered=%v forwarded=%v reject_reasons=%v", desc, names, k.Type(), class, loc, fwd, reasons)
+				detail := fmt.Sprintf("%s: tamper=%v author_key=%s class=%s: delivered=%v forwarded=%v forwarded_altered=%v reject_reasons=%v busy=%v variant=%d", desc, names, k.Type(), class, loc, fwd, fwdAltered, reasons, busy, v)
+				c.Logf("variant %d %v data=%q verdict=%+d class=%s delivered=%v forwarded=%v altered=%v reasons=%v wire_since=%d", v, names, string(wire.Data), verdict, class, loc, fwd, fwdAltered, reasons, len(O.WireSince(omark)))
 				switch verdict {
 				case -1:
 					if loc || fwd || fwdAltered {
